@@ -187,7 +187,7 @@ structure InvA (s : State) : Prop where
     | .select => True
     | .tickLoop ts => ts ≤ s.now
     | .forwarding ts r => ts ≤ s.now ∧ r.trigger ≤ (ts : Int) ∧ ∀ r' ∈ s.heap.toList, r.trigger ≤ r'.trigger
-  fwdOk : ∀ x ∈ s.forwarded, x.1.trigger ≤ (x.2 : Int) ∧ x.2 ≤ s.now
+  fwdOk : ∀ x ∈ s.forwarded, x.1.trigger ≤ (x.2 : Int) ∧ x.2 ≤ s.now ∧ x.1.sent ≤ x.2
   ids : ∀ a, idCount s a = if a < s.nextId then 1 else 0
   sentLe : ∀ r ∈ outstanding s, r.sent ≤ s.now
 
@@ -324,7 +324,7 @@ theorem invA_step {s s' : State} {a : Act} (h : InvA s) (hs : step s a = some s'
       rcases hx with hx | hx
       · exact h.fwdOk x hx
       · subst hx
-        refine ⟨?_, Nat.le_refl _⟩
+        refine ⟨?_, Nat.le_refl _, h.sentLe r (by simp [outstanding, hl, inflight])⟩
         have := hlp.2.1
         have h1 := hlp.1
         show r.trigger ≤ (s.now : Int)
@@ -368,7 +368,7 @@ theorem invA_step {s s' : State} {a : Act} (h : InvA s) (hs : step s a = some s'
         have := this.1; omega
     · intro x hx
       have := h.fwdOk x hx
-      exact ⟨this.1, by simp only; omega⟩
+      exact ⟨this.1, by simp only; omega, this.2.2⟩
     · intro r hr
       have := h.sentLe r hr
       simp only; omega
